@@ -60,7 +60,7 @@ type Rule struct {
 	Class string `json:"class"`          // refsn type name, e.g. "PUBLISH"; "" = any
 	Skip  int    `json:"skip,omitempty"`
 	Count int    `json:"count"`
-	Act   string `json:"act"` // "drop" | "dup" | "delay"
+	Act   string `json:"act"` // "drop" | "dup" | "delay" | "werr" (the sender's write fails with an error, nothing is sent)
 	DelayMs int64 `json:"delay_ms,omitempty"`
 }
 
